@@ -110,6 +110,10 @@ def project(v, el):
         if el.isdigit() and int(el) < len(v[1]):
             return v[1][int(el)]
         return ("proj", v, el)
+    if k == "closure":
+        if el.isdigit() and int(el) < len(v[2]):
+            return v[2][int(el)]
+        return ("proj", v, el)
     if k == "agg":
         base, ovs = v[1], v[2]
         sub = []
@@ -346,7 +350,7 @@ class Engine(object):
             if a == "array":
                 return ("array", ops)
             if a == "adt":
-                return ("adt", kind["adt"], kind["variant"], kind["vi"],
+                return ("adt", kind["adt"], kind["variant"], kind.get("dv", kind["vi"]),
                         tuple(zip(kind["fields"], ops)))
             if a == "closure":
                 return ("closure", kind["def"], ops)
